@@ -37,6 +37,7 @@ EXPLANATION = (
     "global numpy source and set_random_seed seeds both global sources; all other random draws of these modules use "
     "the seeded stdlib global; R19.6 the kill-chain return handler reads history[<its timestep parameter>] (never a fixed "
     "position), every caller passes self.current_timestep, which is written only by update_current_timestep and only "
+    "R19.7 the numeric settings this property depends on are never tested by truthiness (`x or default`, `if x:`), because 0 is a legal value for them. "
     "after the handler has examined the previous turn. NOT decided: statistical behaviour of the draws, effects of blue actions on success or "
     "failure of red actions, whether emitted action names are in the configured action map, validity of the "
     "credentials/knowledge TAP003 reads from its options."
@@ -1059,3 +1060,5 @@ def check(ctx: Ctx) -> None:
     r19_4(ctx, agents)
     r19_5(ctx)
     r19_6(ctx)
+    from .common import falsy_numeric
+    falsy_numeric(ctx, "R19.7", r"probability|variance|frequency|start_step|max_executions", "scripted-agent settings")
